@@ -71,6 +71,7 @@ class Env:
         self.locals = {}
         self.size = const(0) if is_ctor else sym("size")
         self.minmax = {}       # symbol -> (kind, [Lin args])
+        self.bounded = {"size"}   # symbols known to lie in [0, cap]
         self.signed = set(p["n"] for p in func["params"] if any(t in p["ty"] for t in ("ptrdiff_t", "difference_type", "int ", "long"))
                           and "unsigned" not in p["ty"] and "size" not in p["ty"])
 
@@ -124,6 +125,11 @@ def lin(e, env):
                 return env.size
             if nm in ("capacity", "max_size") and not a:
                 return sym("cap")
+        if kind == "member" and nm in ("size", "length") and not a and not astx.is_this(recv):
+            b = astx.strip_casts(recv)
+            if b is not None and b.get("k") == "ref" and b.get("d") == "param":
+                env.bounded.add("size(%s)" % b["n"])
+                return sym("size(%s)" % b["n"])
         if kind == "member" and nm == "data" and not a:
             b = astx.strip_casts(recv)
             if b is not None and b.get("k") == "mem" and astx.is_this(b.get("b")):
@@ -224,6 +230,40 @@ def nonneg(d, env, depth):
                 d2 = Lin(dict((t, w) for t, w in d.c.items() if t != s), d.k) + Lin(dict((t, w * v) for t, w in x.c.items()), x.k * v)
                 if nonneg(d2, env, depth + 1):
                     return True
+    return None
+
+
+def concrete(L, env, asg):
+    """value of a linear form under an assignment of the bounded symbols (B = 0); None if another symbol occurs"""
+    tot = L.k
+    for sname, v in L.c.items():
+        if sname == "B":
+            continue
+        if sname in asg:
+            tot += v * asg[sname]
+        elif sname in env.minmax:
+            kind, xs = env.minmax[sname]
+            vals = [concrete(x, env, asg) for x in xs]
+            if None in vals:
+                return None
+            tot += v * (max(vals) if kind == "max" else min(vals))
+        else:
+            return None
+    return tot
+
+
+def refute_upper(hi, env, cap=7):
+    """an assignment of the bounded symbols (each 0 or cap) under which hi > B + cap, or None"""
+    import itertools
+    names = sorted(env.bounded)
+    for vals in itertools.product((0, cap), repeat=len(names)):
+        asg = dict(zip(names, vals))
+        asg["cap"] = cap
+        v = concrete(hi, env, asg)
+        if v is None:
+            return None
+        if v > cap:
+            return dict((n, ("cap" if x == cap else x)) for n, x in asg.items() if n != "cap")
     return None
 
 
@@ -332,6 +372,28 @@ def check_function(chk, f, want_destroy, rules, only=("W", "D", "C")):
                         env.locals[v["n"]] = t
                     else:
                         env.locals.pop(v["n"], None)
+        if "U" in only:
+            for kind, lo, hi, node in evs:
+                if kind != "W" or hi is None or lo is None:
+                    continue
+                if "B" not in hi.c or hi.c.get("B") != 1 or lo.c.get("B") != 1:
+                    continue            # not a range of this object's storage
+                n_sites += 1
+                chk.instance("SLOTS-U")
+                key = id(node)
+                okk = le(hi, sym("B") + sym("cap"), env)
+                wit_ = None
+                if not okk:
+                    wit_ = refute_upper(hi, env)
+                chk.obligation("SLOTS-U", construct, True if okk else (False if wit_ else None))
+                if wit_ and (key, "uu") not in reported:
+                    reported.add((key, "uu"))
+                    chk.violation("SLOTS-U", construct, "writes-size-slot", "%s: `%s` writes [%s, %s); with %s the range includes index capacity(), "
+                                  "where the small layout keeps the size" % (astx.loc(f, node), astx.show(node, 70), lo, hi,
+                                                                              ", ".join("%s = %s" % kv for kv in sorted(wit_.items()))), {"where": astx.loc(f)})
+                elif not okk and not wit_ and (key, "un") not in reported:
+                    reported.add((key, "un"))
+                    chk.unknown_instance("SLOTS-U", construct, "%s: upper end `%s` of a range write not bounded by capacity()" % (astx.loc(f, node), hi))
         stores = [(i, x) for i, x in enumerate(evs) if x[0] == "S"]
         for i, (kind, new, extra, node) in stores:
             old, pf = extra
@@ -437,7 +499,7 @@ def check(chk, db, records, want_destroy, skip=("unsafe_set_size", "set_size"), 
         r = f.get("record") or ""
         if not any(x in r for x in records) or f.get("body") is None or f["n"] in skip:
             continue
-        if not any(x.get("k") == "call" and astx.callee(x)[0] in SIZE_STORES for x in astx.all_exprs(f, into_lambdas=False)):
+        if "U" not in only and not any(x.get("k") == "call" and astx.callee(x)[0] in SIZE_STORES for x in astx.all_exprs(f, into_lambdas=False)):
             continue
         n += check_function(chk, f, want_destroy(r), ("SLOTS-W",), only)
     return n
